@@ -11,13 +11,15 @@ EMPTY = (("ext", "set", (), ()), ("set", ()), ("list", ()), ("tuple", ()))
 
 
 class SetAlg:
-    def __init__(self, atoms):
+    def __init__(self, atoms, max_atoms=3, feasible=None):
+        """feasible: optional predicate on a region (tuple of memberships); regions that cannot hold an element (e.g. "a neighbour that is not
+        adjacent") are left out, so two predicates are compared only in worlds that can occur"""
         self.atoms = list(atoms)
         n = len(self.atoms)
-        if n > 3:
-            raise Inconclusive("more than three set atoms")
+        if n > max_atoms:
+            raise Inconclusive("more than %d set atoms" % max_atoms)
         # a region = tuple of booleans (membership in each atom), not all False
-        self.regions = [r for r in itertools.product([False, True], repeat=n) if any(r)]
+        self.regions = [r for r in itertools.product([False, True], repeat=n) if any(r) and (feasible is None or feasible(r))]
 
     def worlds(self):
         for bits in itertools.product([False, True], repeat=len(self.regions)):
@@ -85,9 +87,11 @@ class SetAlg:
         # a set used as a condition: non-empty
         return self.nonempty(t, w)
 
-    def equal(self, code, spec):
-        """-> (True, None) | (False, witness description)"""
+    def equal(self, code, spec, admissible=None):
+        """-> (True, None) | (False, witness description); admissible: optional predicate on worlds (e.g. "the singleton {y} is inhabited")"""
         for w in self.worlds():
+            if admissible is not None and not admissible(w):
+                continue
             a, b = code(w), spec(w)
             if a != b:
                 desc = []
